@@ -25,6 +25,13 @@ class MInt(ModelValue, int):
     size = 0
     signed = False
     model_attrs = ('size', 'limit', 'arg')
+    model_methods = ('maxcast',)
+
+    @classmethod
+    def maxcast(c1, c2):
+        # modint.moduint.maxcast: the wider of the class and the class of the value (the value's class on a tie)
+        c2 = type(c2)
+        return c1 if c1.size > c2.size else c2
 
     def __new__(cls, v=0):
         v = int(v) % (1 << cls.size)
